@@ -19,5 +19,6 @@ CONSTANTS
   LabelLive = TRUE
   PayloadLive = TRUE
   FileIdFollowsHeader = TRUE
+  DimFollowsData = TRUE
 INVARIANT PrintLeaf
 CHECK_DEADLOCK FALSE
